@@ -34,7 +34,7 @@ PROPS["C01"] = {
              "executed under 4 (quick) / 16 (thorough) tape-chosen release orders of the parked storage calls, a fresh storage order (shard ids) every second execution, every fourth execution as a BatchCheck of the duplicated query. "
              "Oracle: R1 stratified Zanzibar evaluator; limits non-binding by R1's criterion (no reachable cycle through a rewrite edge; max_read_depth=1000 >= 10*|reachable|+10). "
              "A case is non-trivial when the reference derivation has >=1 subject-set hop or rewrite edge and the answer is not decided by a direct tuple on the query node; distinct = distinct hash of (config, tuples, query)."),
-    "probes": ["probe_same_object_name_in_two_namespaces", "probe_two_hops", "probe_concurrent_parked", "probe_traverse_listing", "strict_cases", "enc_opl", "enc_ast", "enc_none", "ref_allowed", "ref_denied"],
+    "probes": ["probe_same_object_name_in_two_namespaces", "unwrapped_engine_checks", "probe_two_hops", "probe_concurrent_parked", "probe_traverse_listing", "strict_cases", "enc_opl", "enc_ast", "enc_none", "ref_allowed", "ref_denied"],
     "real": REAL_E, "stub": STUB_E,
     "fault_kinds": {},
     "assumptions": [
@@ -150,7 +150,7 @@ PROPS["C06"] = {
              "The other tenants are populated, a fixed set of their observables is recorded (full listing, 5 query shapes over REST and gRPC, 5 checks, 5 expands, hash of their raw rows), then 4-25 API operations run in tenant A "
              "(the C04 mix incl. delete-by-empty-query over gRPC and deletes aimed at relationships that exist only in another tenant). After EVERY operation: every recorded observable of every other tenant is unchanged and equals its model; "
              "tenant A's listing and checks equal A's own model; a relationship stored only in another tenant is not allowed in A. non-trivial = the other tenants hold data; distinct = hash of the history."),
-    "probes": ["ops_in_A", "probe_delete_in_A", "probe_foreign_check", "probe_delete_by_value_in_A", "probe_delete_over_100_in_A", "probe_block_of_500_plus", "probe_delete_by_query_in_A"],
+    "probes": ["ops_in_A", "probe_delete_in_A", "probe_foreign_check", "probe_delete_by_value_in_A", "probe_delete_over_100_in_A", "probe_block_of_500_plus", "probe_bulk_write_and_delete_by_query_in_A", "probe_delete_by_query_in_A"],
     "real": REAL_S + ["ketoctx.Contextualizer / HTTP middleware / gRPC interceptor options of the real registry (driver.NewDefaultRegistry) carry the tenant"], "stub": STUB_S,
     "fault_kinds": {},
     "assumptions": ["tenants are distinguished by the network id returned by the Contextualizer, as in a multi-tenant embedding of keto"],
@@ -168,7 +168,7 @@ PROPS["C07"] = {
              "mode 'writes': between page fetches another client inserts / deletes matching and non-matching rows. Oracles: every page <= page_size (0 => 100); every row alive for the whole iteration is returned, no content more often than it existed; "
              "without a concurrent matching write the pages are exactly ceil(n/size) (token empty <=> last page) and the multiset is exact; mode 'token': malformed page tokens are answered 4xx / InvalidArgument-class; one run in twelve uses 999..5003 rows with page sizes 500..7000; mode 'traverse' (the internal consumers of paging): a node with 99..3001 subject sets, exactly one of which - at a chosen position in storage order, biased to multiples of 100 / 1000 and the ends - contains the subject: the check must find it, must not allow an outsider, and the listing must return every row once. "
              "non-trivial = iteration needed >= 2 pages (mode token: every run); distinct = hash of (query, n, page size, transport, interleaving)."),
-    "probes": ["probe_boundary_size", "probe_100_plus_rows", "probe_default_page_size", "interleaved_matching_insert", "interleaved_matching_delete", "interleaved_other_write", "malformed_tokens_rest", "malformed_tokens_grpc", "lookalike_tokens", "probe_fully_qualified_query_over_copies", "probe_thousands_of_rows", "probe_tens_of_thousands_of_rows", "probe_wide_node_over_1000", "traverse_cases"],
+    "probes": ["probe_boundary_size", "probe_100_plus_rows", "probe_default_page_size", "interleaved_matching_insert", "interleaved_matching_delete", "interleaved_other_write", "malformed_tokens_rest", "malformed_tokens_grpc", "lookalike_tokens", "probe_fully_qualified_query_over_copies", "probe_page_size_changes_within_listing", "probe_thousands_of_rows", "probe_tens_of_thousands_of_rows", "probe_wide_node_over_1000", "traverse_cases"],
     "real": REAL_S, "stub": STUB_S,
     "fault_kinds": {},
     "assumptions": ["rows with equal content are indistinguishable in API output, so exactly-once is checked per content as a multiset bound"],
@@ -240,7 +240,7 @@ PROPS["C08"] = {
              "(results in request order, one per tuple, a bad entry affects only its own result; over-limit batches are client errors). "
              "mode 'batch-order' (tier E): BatchCheck of 2-8 distinct queries with individually known reference answers inside a synctest bubble, parallelisation limit 1..6, 3/10 tape-chosen release orders of the workers' storage calls: results[i] must be the answer for tuples[i]. "
              "non-trivial = the reference derivation needs a hop or rewrite (batch-order: the batch mixes allowed and denied entries); distinct = hash of (config, tuples, query)."),
-    "probes": ["engine_allowed", "engine_denied", "probe_unknown_namespace", "probe_evil_twin_entries", "probe_mixed_batch", "probe_batch_over_limit", "probe_mixed_answers", "probe_workers_in_flight"],
+    "probes": ["engine_allowed", "engine_denied", "probe_unknown_namespace", "probe_evil_twin_entries", "probe_empty_subject_id", "probe_mixed_batch", "probe_batch_over_limit", "probe_mixed_answers", "probe_workers_in_flight"],
     "real": REAL_S + ["tier E part: real check.Engine.BatchCheck (errgroup workers) scheduled at the storage seam"], "stub": STUB_S,
     "fault_kinds": {},
     "assumptions": ["'never allowed' for an unknown namespace accepts both a denied answer and a client error; the transports need not agree on how they refuse"],
